@@ -15,6 +15,7 @@ import (
 	"os"
 	"reflect"
 	"strings"
+	"time"
 
 	"github.com/hyperjumptech/grule-rule-engine/ast"
 	"github.com/hyperjumptech/grule-rule-engine/builder"
@@ -30,6 +31,7 @@ type AsgInner struct {
 	I8  int8
 	U16 uint16
 	B   bool
+	T   time.Time
 }
 
 type AsgFact struct {
@@ -58,12 +60,45 @@ type AsgFact struct {
 	MI  map[string]int64
 	MF  map[string]float64
 	MS  map[string]string
+	AV  []uint64
+	MU  map[string]uint64
+	T   time.Time
 }
 
-func newAsgFact() *AsgFact {
+// bigM scales the 64-bit integer places of a "scaled" case beyond 2^53 (the model's algebra is linear there).
+var bigM = new(big.Int).Add(new(big.Int).Lsh(big.NewInt(1), 53), big.NewInt(1))
+
+var bigLocs = map[string]bool{"F.I64": true, "F.I": true, "F.U64": true, "F.U": true, "F.P.I64": true, "F.PI": true, "F.AI[0]": true, "F.AI[1]": true,
+	"F.AV[0]": true, "F.AV[1]": true, "F.MI[a]": true, "F.MI[b]": true, "F.MU[a]": true, "N": true}
+
+func asgTime(k int64) time.Time { return time.Date(2020, 1, 1, 0, 0, int(k), 0, time.Local) }
+
+func newAsgFact(scale int64) *AsgFact {
 	pi, pf := int64(30), float64(4.5)
-	return &AsgFact{I8: 5, I16: 6, I32: 7, I64: 8, I: 9, U8: 10, U16: 11, U32: 12, U64: 13, U: 14, F32: 1.5, F64: 2.5, S: "s", B: true,
-		P: &AsgInner{I64: 20, F64: 3.5, S: "p", I8: 21, U16: 22, B: false}, PI: &pi, PF: &pf,
+	f := newAsgFact0(pi, pf)
+	if scale == 1 {
+		m := bigM.Int64()
+		um := uint64(m)
+		f.I64 *= m
+		f.I *= int(m)
+		f.U64 *= um
+		f.U *= uint(um)
+		f.P.I64 *= m
+		*f.PI *= m
+		f.AI[0] *= m
+		f.AI[1] *= m
+		f.AV[0] *= um
+		f.AV[1] *= um
+		f.MI["a"] *= m
+		f.MI["b"] *= m
+		f.MU["a"] *= um
+	}
+	return f
+}
+
+func newAsgFact0(pi int64, pf float64) *AsgFact {
+	return &AsgFact{AV: []uint64{44, 45}, MU: map[string]uint64{"a": 52}, T: asgTime(1),I8: 5, I16: 6, I32: 7, I64: 8, I: 9, U8: 10, U16: 11, U32: 12, U64: 13, U: 14, F32: 1.5, F64: 2.5, S: "s", B: true,
+		P: &AsgInner{I64: 20, F64: 3.5, S: "p", I8: 21, U16: 22, B: false, T: asgTime(2)}, PI: &pi, PF: &pf,
 		AI: []int64{40, 41}, AF: []float64{0.25, 5.5}, A8: []int8{42, 1}, AU: []uint16{2, 43}, AS: []string{"e", "f"},
 		MI: map[string]int64{"a": 50, "b": 51}, MF: map[string]float64{"a": 6.5}, MS: map[string]string{"a": "m"}}
 }
@@ -78,9 +113,14 @@ type avalue struct {
 	V bool   `json:"v"`
 }
 
-func (v avalue) text() string {
+func (v avalue) text(scale int64) string {
 	switch v.T {
+	case "t":
+		return fmt.Sprintf("MakeTime(2020, 1, 1, 0, 0, %d)", v.N)
 	case "i":
+		if scale == 1 {
+			return new(big.Int).Mul(big.NewInt(v.N), bigM).String()
+		}
 		return fmt.Sprint(v.N)
 	case "r":
 		f := float64(v.N) / float64(v.D)
@@ -112,8 +152,9 @@ type aact struct {
 }
 
 type asgCase struct {
-	Fam  string `json:"fam"`
-	Acts []aact `json:"acts"`
+	Fam   string `json:"fam"`
+	Scale int64  `json:"scale"`
+	Acts  []aact `json:"acts"`
 	Want struct {
 		Err   bool              `json:"err"`
 		Store map[string]avalue `json:"store"`
@@ -130,14 +171,14 @@ func locPath(n string) string {
 
 var formText = map[string]string{"set": "=", "add": "+=", "sub": "-=", "mul": "*=", "div": "/="}
 
-func (r arhs) grl() string {
+func (r arhs) grl(scale int64) string {
 	switch r.K {
 	case "c":
-		return r.V.text()
+		return r.V.text(scale)
 	case "r":
 		return locPath(r.N)
 	case "x":
-		return "(" + locPath(r.N) + " " + opSym[r.Op] + " " + r.C.text() + ")"
+		return "(" + locPath(r.N) + " " + opSym[r.Op] + " " + r.C.text(scale) + ")"
 	}
 	panic("rhs " + r.K)
 }
@@ -216,6 +257,10 @@ func readLoc(n string, f *AsgFact, dc ast.IDataContext) (interface{}, reflect.Ki
 		return v.String(), v.Kind(), nil
 	case reflect.Bool:
 		return v.Bool(), v.Kind(), nil
+	case reflect.Struct:
+		if t, isTime := v.Interface().(time.Time); isTime {
+			return t, v.Kind(), nil
+		}
 	}
 	return nil, 0, fmt.Errorf("%s has kind %s", n, v.Kind())
 }
@@ -249,7 +294,7 @@ func cmdAsgReplay(args []string) {
 		fams[c.Fam]++
 		var acts []string
 		for _, a := range c.Acts {
-			acts = append(acts, locPath(a.T)+" "+formText[a.Form]+" "+a.Rhs.grl()+";")
+			acts = append(acts, locPath(a.T)+" "+formText[a.Form]+" "+a.Rhs.grl(c.Scale)+";")
 		}
 		grl := "rule A { when true then " + strings.Join(acts, " ") + ` Retract("A"); }`
 		report := func(what string, want, got interface{}) {
@@ -268,11 +313,15 @@ func cmdAsgReplay(args []string) {
 			report("instantiate", "instance", err.Error())
 			continue
 		}
-		fact := newAsgFact()
+		fact := newAsgFact(c.Scale)
 		dc := ast.NewDataContext()
 		dc.Add("F", fact)
 		must(dc.AddJSON("J", []byte(asgJSON)))
-		dc.Add("N", int64(70))
+		if c.Scale == 1 {
+			dc.Add("N", 70*bigM.Int64())
+		} else {
+			dc.Add("N", int64(70))
+		}
 		dc.Add("Q", float64(7.5))
 		dc.Add("T", "t")
 		err = (&engine.GruleEngine{MaxCycle: 3}).Execute(dc, kb)
@@ -299,13 +348,20 @@ func cmdAsgReplay(args []string) {
 					if want.T == "i" {
 						d = 1
 					}
-					ok = r.Cmp(big.NewRat(want.N, d)) == 0
+					wr := big.NewRat(want.N, d)
+					if c.Scale == 1 && bigLocs[loc] {
+						wr.Mul(wr, new(big.Rat).SetInt(bigM))
+					}
+					ok = r.Cmp(wr) == 0
 					// a context variable keeps the kind of the stored value
 					if ok && !strings.Contains(loc, ".") {
 						isFloat := kind == reflect.Float32 || kind == reflect.Float64
 						ok = isFloat == (want.T == "r")
 					}
 				}
+			case "t":
+				t, isTime := got.(time.Time)
+				ok = isTime && t.Equal(asgTime(want.N))
 			case "s":
 				s, isStr := got.(string)
 				ok = isStr && s == want.S
@@ -316,7 +372,7 @@ func cmdAsgReplay(args []string) {
 			if !ok {
 				g := fmt.Sprint(got)
 				if r, isNum := got.(*big.Rat); isNum {
-					g = r.FloatString(6) + " (" + kind.String() + ")"
+					g = r.FloatString(3) + " (" + kind.String() + ")"
 				}
 				report("location "+loc, want, g)
 				break
